@@ -16,8 +16,16 @@ IMPORTS = "Registry.Model"
 
 # ------------------------------------------------------------------------------------------
 # abstract histories: list of ops
-#   ["sp", a, name|None, kind, ps]   kind ok|fail|park|remote|remotepark ; ps 0|1
-#   ["go", a, ok] ["stop", a] ["kill", a] ["rel", a] ["wait", a] ["wh", name] ["whp", a]
+#   ["sp", a, name|None, kind, ps]   kind ok|fail|park|remote|remotepark|tlok|tlfail|tlpark ; ps 0|1
+#        (tl* = spawned through the thread-local API: ActorCell::new_thread_local enrols the cell in the same
+#         two registries, name then pid, so the model actor is an ordinary local one)
+#   ["go", a, ok] ["stop", a] ["kill", a] ["err", a] ["panic", a] ["drain", a] (exit causes)
+#   ["ldrain", a]  a late drain(): the actor has already begun to stop — no model step, no event
+#   ["rel", a] ["wait", a] ["wh", name] ["whp", a]
+
+def base_kind(kind):
+    return kind[2:] if kind.startswith("tl") else kind
+
 
 def translate(ops):
     """ops -> harness line, model actors/labels, expected spawn results (given the model's ESpawn flags)"""
@@ -40,10 +48,10 @@ def translate(ops):
                        "go": None}
             hops.append(f"sp {a} {name if name is not None else '-'} {kind} {ps}")
             labels += [f"LStep {a}", f"LStep {a}"]
-            if kind in ("ok", "remote"):
+            if base_kind(kind) in ("ok", "remote"):
                 labels.append(f"LStart {a} true")
                 acts[a]["phase"] = "run"
-            elif kind == "fail":
+            elif base_kind(kind) == "fail":
                 labels += [f"LStart {a} false", f"LStep {a}", f"LStep {a}", f"LFinish {a}"]
                 acts[a]["phase"] = "stopped"
         elif k == "go":
@@ -56,7 +64,9 @@ def translate(ops):
             else:
                 labels += [f"LStart {a} false", f"LStep {a}", f"LStep {a}", f"LFinish {a}"]
                 finished(a)
-        elif k in ("stop", "kill", "err", "panic"):
+        elif k == "ldrain":
+            hops.append(f"ldrain {op[1]}")
+        elif k in ("stop", "kill", "err", "panic", "drain"):
             a = op[1]
             hops.append(f"{k} {a}")
             if acts[a]["phase"] == "pre":
@@ -66,7 +76,7 @@ def translate(ops):
                 finished(a)
                 continue
             labels += [f"LStop {a}", f"LStep {a}", f"LStep {a}"]
-            if k == "stop" and acts[a]["ps"]:
+            if k in ("stop", "drain") and acts[a]["ps"]:
                 acts[a]["phase"] = "psparked"
             else:
                 labels.append(f"LFinish {a}")
@@ -111,9 +121,9 @@ def expected_results(tr, model_hist):
         x = tr["info"][a]
         if not ok.get(a, True):
             res.append("AlreadyRegistered")
-        elif x["kind"] in ("ok", "remote"):
+        elif base_kind(x["kind"]) in ("ok", "remote"):
             res.append("Ok")
-        elif x["kind"] == "fail":
+        elif base_kind(x["kind"]) == "fail":
             res.append("StartupFailed")
         else:
             res.append("Pending" if x["go"] is None else ("Ok" if x["go"] else "StartupFailed"))
@@ -126,6 +136,8 @@ def gen_history(rng):
     holder = {}    # name -> a (python-side bookkeeping only to produce interesting, valid op lists)
     names = [1, 2, 3][:rng.choice([1, 2, 2, 3])]
     n_ops = rng.choice([5, 8, 12, 16, 22, 30])
+    # share of thread-local spawns in this history (none in half of them: the spawner's OS thread is slower)
+    tl_p = rng.choice([0, 0, 0.25, 0.5])
     nxt = 0
     for _ in range(n_ops):
         r = rng.random()
@@ -133,7 +145,11 @@ def gen_history(rng):
         run = [a for a, x in acts.items() if x["phase"] == "run"]
         psp = [a for a, x in acts.items() if x["phase"] == "psparked"]
         cells = [a for a, x in acts.items() if x["cell"]]
-        if r < 0.30 or not acts:
+        late = [a for a, x in acts.items() if x["cell"] and not x["remote"] and x["phase"] in ("psparked", "stopped")]
+        if r < 0.07 and late:
+            # drain() reaching an actor that has already begun to stop (mostly one parked in post_stop)
+            ops.append(["ldrain", rng.choice([a for a in late if acts[a]["phase"] == "psparked"] or late)])
+        elif r < 0.30 or not acts:
             name = rng.choice(names + names + [None]) if rng.random() < 0.9 else None
             kind = rng.choice(["ok", "ok", "ok", "park", "park", "fail", "remote", "remotepark"])
             if name is None and kind.startswith("remote"):
@@ -146,7 +162,9 @@ def gen_history(rng):
             acts[a] = {"phase": "failed" if taken else {"ok": "run", "remote": "run", "fail": "stopped",
                                                           "park": "pre", "remotepark": "pre"}[kind],
                        "name": name, "remote": remote, "ps": ps, "cell": not taken}
-            if not taken and not remote and name is not None and kind != "fail":
+            if not remote and tl_p and rng.random() < tl_p:
+                kind = "tl" + kind
+            if not taken and not remote and name is not None and base_kind(kind) != "fail":
                 holder[name] = a
             ops.append(["sp", a, name, kind, ps])
         elif r < 0.40 and pre:
@@ -165,8 +183,8 @@ def gen_history(rng):
         elif r < 0.58 and run:
             a = rng.choice(run)
             # (a remote-id handle cannot be sent a plain message: only stop/kill for those)
-            k = rng.choice(["stop", "stop", "kill"] + ([] if acts[a]["remote"] else ["err", "panic"]))
-            acts[a]["phase"] = "psparked" if (k == "stop" and acts[a]["ps"]) else "stopped"
+            k = rng.choice(["stop", "stop", "kill"] + ([] if acts[a]["remote"] else ["err", "panic", "drain"]))
+            acts[a]["phase"] = "psparked" if (k in ("stop", "drain") and acts[a]["ps"]) else "stopped"
             if holder.get(acts[a]["name"]) == a and not acts[a]["remote"]:
                 del holder[acts[a]["name"]]
             ops.append([k, a])
@@ -183,6 +201,44 @@ def gen_history(rng):
     for nme in names:
         ops.append(["wh", nme])
     return ops
+
+
+def directed():
+    """small systematic families run on every seed (source 'directed')"""
+    out = []
+    # (a) a spawn under a TAKEN name is rejected without side effects, whichever API (Send / thread-local) the
+    # holder and the rejected spawn come through and whatever the holder is doing (running, parked in pre_start);
+    # afterwards the name is still taken for everybody, and free again only after the holder's exit
+    for hk in ("ok", "tlok", "park", "tlpark"):
+        for dk in ("ok", "tlok", "tlpark", "tlfail", "fail"):
+            for third in ("ok", "tlok"):
+                ops = [["sp", 0, 1, hk, 0], ["wh", 1], ["sp", 1, 1, dk, 0], ["wh", 1], ["whp", 0], ["sp", 2, 1, third, 0], ["wh", 1]]
+                if base_kind(hk) == "park":
+                    ops += [["go", 0, True], ["wh", 1]]
+                ops += [["stop", 0], ["wait", 0], ["wh", 1], ["sp", 3, 1, dk, 0], ["wh", 1], ["whp", 3]]
+                out.append(ops)
+    # two names: the rejected spawn must not disturb the other name either
+    for dk in ("tlok", "ok"):
+        out.append([["sp", 0, 1, "ok", 0], ["sp", 1, 2, "tlok", 0], ["sp", 2, 1, dk, 0], ["sp", 3, 2, dk, 0], ["wh", 1], ["wh", 2],
+                    ["kill", 1], ["wh", 2], ["sp", 4, 2, dk, 0], ["wh", 2], ["wh", 1]])
+    # (b) a successor takes the name while the predecessor is parked in post_stop; a drain() request that
+    # reaches the predecessor in that window (it is already Stopping) must not make its exit release again
+    for ak in ("ok", "tlok"):
+        for cause in ("stop", "drain"):
+            for bk in ("ok", "park", "tlok"):
+                for when in ("before", "after", "both", "none"):
+                    ops = [["sp", 0, 1, ak, 1], ["wait", 0], [cause, 0], ["wh", 1]]
+                    if when in ("before", "both"):
+                        ops.append(["ldrain", 0])
+                    ops += [["sp", 1, 1, bk, 0], ["wh", 1]]
+                    if when in ("after", "both"):
+                        ops.append(["ldrain", 0])
+                    ops += [["wh", 1], ["whp", 0], ["rel", 0], ["wh", 1], ["whp", 1], ["sp", 2, 1, "ok", 0], ["wh", 1]]
+                    if bk == "park":
+                        ops += [["go", 1, True], ["wh", 1]]
+                    ops += [["ldrain", 0], ["wh", 1], ["stop", 1], ["wait", 1], ["wh", 1], ["sp", 3, 1, "ok", 0], ["wh", 1]]
+                    out.append(ops)
+    return out
 
 
 # ------------------------------------------------------------------------------------------
@@ -346,13 +402,17 @@ def run(chk):
     n_corpus = len(hists)
     replaying = bool(hists) and hists[0][0] == "replay"
     if not replaying:
+        hists += [("directed", o) for o in directed()]
         hists += [("random", gen_history(chk.rng)) for _ in range((1200 if quick else 15000) * factor)]
     tr = [translate(o) for _, o in hists]
     lines = [t["line"] for t in tr]
     # thread engines
-    races = [] if replaying else [(k, (30 if quick else 300) * factor) for k in (2, 3, 4, 8, 16)]
-    hammers = [] if replaying else [(16, 4, (300 if quick else 4000) * factor), (8, 1, (200 if quick else 3000) * factor)]
-    tlines = [f"race {k} {r}" for k, r in races] + [f"hammer {t} {n} {i}" for t, n, i in hammers]
+    # (third component: "tl" = every odd thread spawns through the thread-local API)
+    races = [] if replaying else ([(k, (30 if quick else 300) * factor, "") for k in (2, 3, 4, 8, 16)]
+                                  + [(k, (15 if quick else 150) * factor, "tl") for k in (2, 3, 4, 8)])
+    hammers = [] if replaying else [(16, 4, (300 if quick else 4000) * factor, ""), (8, 1, (200 if quick else 3000) * factor, ""),
+                                    (8, 2, (150 if quick else 2000) * factor, "tl")]
+    tlines = [f"race{m} {k} {r}" for k, r, m in races] + [f"hammer{m} {t} {n} {i}" for t, n, i, m in hammers]
     impl = run_harness(build, "eng_reg", lines, shards=8) if lines else []
     timpl = run_harness(build, "eng_reg", tlines, shards=1) if tlines else []
     impl_t = [parse_term(x) for x in impl]
@@ -361,12 +421,14 @@ def run(chk):
     for t, it in zip(tr, impl_t):
         exprs.append(f"(history false {t['labels']} (init {t['acts']}), check_C10 {show_hist(it[1])})")
     race_rounds = []
-    for (k, r), out in zip(races, timpl[:len(races)]):
+    race_mode = []
+    for (k, r, m), out in zip(races, timpl[:len(races)]):
         for tup in parse_term(out):
             race_rounds.append(tup)
+            race_mode.append(m)
             exprs.append(f"check_race {tup[1]} {tup[2]} {tup[3]} {tup[4]} {tup[5]} {tup[6]}")
     hammer_out = []
-    for (t_, n_, i_), out in zip(hammers, timpl[len(races):]):
+    for (t_, n_, i_, m_), out in zip(hammers, timpl[len(races):]):
         tup = parse_term(out)
         hammer_out.append(tup)
         exprs.append(f"check_hammer {tup[3]} {tup[4]} {tup[5]}")
@@ -399,6 +461,14 @@ def run(chk):
         chk.count("source." + src.split(":")[0])
         for o in ops:
             chk.count("op." + o[0] + ("." + o[3] if o[0] == "sp" else ""))
+        kinds = {o[1]: o[3] for o in ops if o[0] == "sp"}
+        if any(k.startswith("tl") for k in kinds.values()):
+            chk.count("history.with_thread_local_spawn")
+        for a, r in zip(sorted(kinds), i_res):
+            if str(r) == "AlreadyRegistered":
+                chk.count("rejected_spawn." + ("thread_local" if kinds[a].startswith("tl") else "send"))
+        if any(o[0] == "ldrain" for o in ops):
+            chk.count("history.with_late_drain")
         for r in i_res:
             chk.count("spawn_result." + str(r))
         for e in i_hist:
@@ -425,18 +495,20 @@ def run(chk):
     base = len(hists)
     for j, tup in enumerate(race_rounds):
         chk.coverage["evaluations"] += 1
-        chk.count(f"race.k={tup[1]}")
+        chk.count(f"race{race_mode[j]}.k={tup[1]}")
         if model_t[base + j] != "true":
-            found.append((0, True, "concurrent same-name spawns from OS threads: not exactly one winner",
+            found.append((10**6, True, "concurrent same-name spawns from OS threads: not exactly one winner"
+                          + (" (every odd thread spawning through the thread-local API)" if race_mode[j] else ""),
                           "C10 oracle check_race rejects (k, ok, already_registered, other, where_is = winner, "
                           "name free and registrable after the winner's wait): " + show_term(tup) + "\n"
-                          + json.dumps({"ops": [], "race": show_term(tup)})))
+                          + json.dumps({"ops": [], "race": show_term(tup), "harness_line": f"race{race_mode[j]} {tup[1]} 1"})))
     base += len(race_rounds)
     for j, tup in enumerate(hammer_out):
         chk.coverage["evaluations"] += 1
         chk.coverage.setdefault("hammer", []).append(show_term(tup))
         if model_t[base + j] != "true":
-            found.append((0, True, "threads hammering a few names: a live holder was not found / a waited actor was found",
+            found.append((10**6 + 1, True, "threads hammering a few names: a live holder was not found / a waited actor was found"
+                          + (" (every odd thread spawning through the thread-local API)" if hammers[j][3] else ""),
                           "C10 oracle check_hammer rejects (spawn_ok, already_registered, live_holder_not_found, "
                           "found_after_wait, other): " + show_term(tup) + "\n" + json.dumps({"ops": [], "hammer": show_term(tup)})))
     for ops, t, it, mt in zip(thr_ops, ttr, thr_impl, thr_model):
@@ -458,6 +530,7 @@ def run(chk):
                           "correspondence E2:eng_reg thr history differs (a planned hook point not reached or a micro-step "
                           "reordered); the oracle accepts\n" + desc))
     chk.coverage["thread_schedules"] = len(thr_ops)
+    # deterministic histories first (shortest first), then the uncontrolled thread engines
     found.sort(key=lambda x: x[0])
     for _, fi, what, payload in found[:40]:
         chk.violation(what, payload, failing_input=fi)
@@ -467,10 +540,11 @@ def run(chk):
     chk.coverage["distinct_nontrivial"] = len(distinct)
     chk.coverage["corpus_scenarios"] = n_corpus
     chk.coverage["race_rounds"] = len(race_rounds)
-    chk.coverage["rule"] = ("random histories of named/anonymous/remote-id spawns (ok, failing pre_start, parked pre_start), "
-                            "go/stop/kill/release-post_stop/wait/where_is/where_is_pid over <= 3 names; non-trivial = at least "
-                            "one named spawn; distinct = distinct op lists. plus OS-thread races of k in {2,3,4,8,16} "
-                            "same-name spawns and two hammer runs")
+    chk.coverage["rule"] = ("directed families + random histories of named/anonymous/remote-id spawns through the Send and the "
+                            "thread-local API (ok, failing pre_start, parked pre_start), go/stop/kill/err/panic/drain, late "
+                            "drain() on an actor already stopping, release-post_stop/wait/where_is/where_is_pid over <= 3 names; "
+                            "non-trivial = at least one named spawn; distinct = distinct op lists. plus OS-thread races of "
+                            "k in {2,3,4,8,16} same-name spawns (and mixed Send/thread-local ones) and three hammer runs")
     for f in chk.known_findings.get("fixed", []):
         if f.get("property") == "C10":
             chk.notes.append(f"fixed finding {f.get('id')} (commit {f.get('commit')}): {f.get('what')} — regression history in corpus/C10")
@@ -505,4 +579,7 @@ TRUSTED = [
     "hook points ractor/src/actor/verif.rs (cfg slawlor_ractor_verif): new.after_name, status.after_publish, "
     "cleanup.after_pid — used by the controlled-thread engine",
     "Rust harness eng_reg, lib/c10.py translation of operations to model labels, lib/common.py term parser",
+    "thread-local actors are modelled as ordinary local actors (ActorCell::new_thread_local = name then pid enrolment); "
+    "the harness waits for their lifecycle steps on the spawner's OS thread by observing state (start outcome, "
+    "post_stop entered, JoinHandle completed), never by a time-out",
 ]
